@@ -1,4 +1,41 @@
+// Kani harness for cache/cache_manager.rs (property C40, validity rule): cached file metadata is
+// considered valid exactly for a file whose size and modification time are unchanged.
 #[allow(unused_qualifications, unused_imports, dead_code, clippy::all)]
 mod verif_kani {
     use super::*;
+    use std::mem::{size_of, MaybeUninit};
+
+    /// a timestamp `epoch + d`, without naming chrono (not a direct dependency of this crate)
+    fn ts_at<T: Default + std::ops::Add<std::time::Duration, Output = T>>(d: std::time::Duration) -> T { T::default() + d }
+
+    /// forge an ObjectMeta of which only `size` and `last_modified` are initialised (the only fields
+    /// the validity check may read); `last_modified` takes an arbitrary valid timestamp
+    fn forge_meta(size: u64, secs: u64, nanos: u32) -> MaybeUninit<ObjectMeta> {
+        let mut m: MaybeUninit<ObjectMeta> = MaybeUninit::uninit();
+        unsafe {
+            std::ptr::addr_of_mut!((*m.as_mut_ptr()).size).write(size);
+            std::ptr::addr_of_mut!((*m.as_mut_ptr()).last_modified).write(ts_at(std::time::Duration::new(secs, nanos)));
+        }
+        m
+    }
+
+    #[kani::proof]
+    #[kani::unwind(3)]
+    fn c40_file_metadata_entry_valid_iff_size_and_mtime_unchanged() {
+        let (s1, s2): (u64, u64) = (kani::any(), kani::any());
+        // timestamps from a small window (chrono's calendar arithmetic divides; the check itself only compares)
+        let (t1, t2): (u64, u64) = (kani::any(), kani::any());
+        kani::assume(t1 < 4 && t2 < 4);
+        let (n1, n2): (u32, u32) = (kani::any(), kani::any());
+        kani::assume(n1 < 2 && n2 < 2);
+        let cached_meta = forge_meta(s1, t1, n1);
+        let current = forge_meta(s2, t2, n2);
+        let mut entry: MaybeUninit<CachedFileMetadataEntry> = MaybeUninit::uninit();
+        unsafe { std::ptr::copy_nonoverlapping(cached_meta.as_ptr(), std::ptr::addr_of_mut!((*entry.as_mut_ptr()).meta), 1); }
+        let e = unsafe { &*entry.as_ptr() };
+        let valid = e.is_valid_for(unsafe { &*current.as_ptr() });
+        assert!(valid == (s1 == s2 && t1 == t2 && n1 == n2), "C40.validity.valid_iff_size_and_mtime_unchanged");
+        kani::cover!(valid);
+        kani::cover!(!valid && s1 == s2);
+    }
 }
